@@ -24,7 +24,9 @@
     exit n           hidden    parked routine n takes the `cancel` branch
     deliverCancel n  hidden    one goroutine spawned by `cancelAll` closes n's cancel channel
     ctxCancel        visible   the parent context is cancelled (signal handler)
-    walkReturn b     visible   `Walk` returns; b = through the `ctx.Done()` branch
+    walkReturn b     visible   `Walk` returns; b = through the `ctx.Done()` branch (b = false: all routines are
+                               done; since 1e66bd4 this branch returns ctx.Err() too when the context is cancelled
+                               and fail-fast was not triggered)
 -/
 namespace Grog.Walker
 
@@ -170,7 +172,8 @@ def step (c : Cfg) (s : State) : Ev → Option State
                       pend := fun m => s.pend m || !s.cancel m }
       else none
     else if allTerminal c s.phase = true then
-      some { s with retErr := some false, snap := s.phase }
+      -- the `done` branch: also here the context error is returned when the walk was cancelled from outside
+      some { s with retErr := some (s.ctx && !s.ff), snap := s.phase }
     else none
 
 inductive Reach (c : Cfg) : State → Prop where
@@ -200,6 +203,12 @@ def measure (c : Cfg) (s : State) : Nat :=
   + (if s.retErr.isSome then 0 else c.sel.length + 1)
   + (if s.ff then 0 else c.sel.length + 1)
   + (if s.ctx then 0 else 1)
+
+/-- the `done` branch of `Walk` before 1e66bd4: no error, whatever the context (regression witness only) -/
+def walkReturnDoneOld (c : Cfg) (s : State) : Option State :=
+  if s.retErr.isSome then none
+  else if allTerminal c s.phase = true then some { s with retErr := some false, snap := s.phase }
+  else none
 
 /-- tail of `RunBuild` (cmds/build.go): the process exits non-zero iff `Walk` returned an error
     or the returned completion map contains a failure -/
